@@ -59,6 +59,8 @@ Inductive op :=
 | OCr | OLf                    (* LF: what the terminal receives for a written line feed is CR LF (ONLCR) *)
 | OUp1                         (* ESC [ A *)
 | OUp (n : nat) | ODown (n : nat) | ORight (n : nat)   (* ESC [ n A / B / C *)
+| ODown1 | ORight1 | OLeft1    (* ESC [ B / C / D *)
+| OLeft (n : nat)              (* ESC [ n D *)
 | OEraseEol.                   (* ESC [ K *)
 
 Section VtOps.
@@ -72,6 +74,10 @@ Section VtOps.
     | OUp n => up n v
     | ODown n => down n v
     | ORight n => right W n v
+    | ODown1 => down 1 v
+    | ORight1 => right W 1 v
+    | OLeft1 => left 1 v
+    | OLeft n => left n v
     | OEraseEol => erase_eol v
     end.
   Definition run (ops : list op) (v : vt) : vt := fold_left run1 ops v.
